@@ -297,8 +297,17 @@ func runProperty(o *Options, pc *PropertyConfig) int {
 	// re-run them a few at a time with a four-fold time limit
 	{
 		var again []job
+		openFinding := map[string]bool{}
+		for _, kf := range loadKnown(o.Verif) {
+			if kf.Property == o.Property && kf.Status != "fixed" {
+				openFinding[kf.Obligation] = true
+			}
+		}
 		for _, j := range jobs {
 			if j.ob.Kind != "vacuity" && j.ob.Result.Status != "unsat" && j.ob.Result.Status != "sat" {
+				if openFinding[j.ob.Name] {
+					continue // an open known finding: decided by the re-check under its excuse, not by more solver time
+				}
 				again = append(again, j)
 			}
 		}
@@ -488,7 +497,15 @@ func runProperty(o *Options, pc *PropertyConfig) int {
 			if handled {
 				continue
 			}
-			inBase := baseline.Obligations[name] == "discharged"
+			// an obligation with an open known finding is, on the unchanged tree, discharged outside the excused
+			// class: a failure the excuse does not cover is a different violation of the same clause
+			outsideExcuse := false
+			for _, kf := range known {
+				if kf.Property == o.Property && kf.Obligation == name && kf.Status != "fixed" {
+					outsideExcuse = true
+				}
+			}
+			inBase := baseline.Obligations[name] == "discharged" || outsideExcuse
 			if g.status == "undecided" && !inBase {
 				undecided = append(undecided, fmt.Sprintf("%s (%s by %s)", name, g.witness.Result.Status, g.witness.Result.Solver))
 				continue
